@@ -200,6 +200,189 @@ fn run(name: &str, a: &[i128]) -> String {
                 Err(e) => format!("1 {}", e.kind() as u8),
             }
         }
+        "iso_date_time_round" => {
+            let Ok(inc) = RoundingIncrement::try_new(a[10] as u32) else { return "1 2".into() };
+            let dt = h::iso_date_time_new_unchecked(date3(a), time6(&a[3..]));
+            match h::iso_date_time_round(dt, unit(a[9]), inc, mode(a[11])) {
+                Ok(r) => format!("0 {} {} {} {}", r.date.year, r.date.month, r.date.day, fmt_time(&r.time)),
+                Err(e) => format!("1 {}", e.kind() as u8),
+            }
+        }
+        "zdt_wrapper_vs_twin" => {
+            // which ns offset_minutes -> "<wrapper value> <twin value>"  (-1 encodes an error)
+            use temporal_rs::provider::NeverProvider;
+            let Ok(en) = temporal_rs::time::EpochNanoseconds::try_from(a[1]) else { return "PANIC bad instant".into() };
+            let tz = temporal_rs::TimeZone::UtcOffset(h::utc_offset_from_minutes(a[2] as i16));
+            let z = Instant::from(en).to_zoned_date_time_iso(tz);
+            let p = NeverProvider;
+            let v = |r: temporal_rs::TemporalResult<i64>| r.unwrap_or(-1);
+            let (w, t) = match a[0] {
+                0 => (v(z.year().map(i64::from)), v(z.year_with_provider(&p).map(i64::from))),
+                1 => (v(z.month().map(i64::from)), v(z.month_with_provider(&p).map(i64::from))),
+                2 => (v(z.day().map(i64::from)), v(z.day_with_provider(&p).map(i64::from))),
+                3 => (v(z.hour().map(i64::from)), v(z.hour_with_provider(&p).map(i64::from))),
+                4 => (v(z.minute().map(i64::from)), v(z.minute_with_provider(&p).map(i64::from))),
+                5 => (v(z.second().map(i64::from)), v(z.second_with_provider(&p).map(i64::from))),
+                6 => (v(z.millisecond().map(i64::from)), v(z.millisecond_with_provider(&p).map(i64::from))),
+                7 => (v(z.microsecond().map(i64::from)), v(z.microsecond_with_provider(&p).map(i64::from))),
+                _ => (v(z.nanosecond().map(i64::from)), v(z.nanosecond_with_provider(&p).map(i64::from))),
+            };
+            format!("{w} {t}")
+        }
+        "plain_date_time_add" => {
+            // y m d h mi s ms us ns  years months weeks days norm_ns overflow
+            use temporal_rs::primitive::FiniteF64 as F;
+            let f = |x: i128| F::try_from(x as f64).unwrap_or_default();
+            let dt = h::iso_date_time_new_unchecked(date3(a), time6(&a[3..]));
+            let pdt = h::plain_date_time_new_unchecked(dt, temporal_rs::Calendar::default());
+            let z = F::default();
+            let d = match temporal_rs::Duration::new(f(a[9]), f(a[10]), f(a[11]), f(a[12]), z, z, z, z, z, f(a[13])) {
+                Ok(d) => d,
+                Err(e) => return format!("1 {}", e.kind() as u8),
+            };
+            match pdt.add(&d, Some(overflow(a[14]))) {
+                Ok(r) => format!("0 {} {} {} {} {} {} {} {} {}", r.iso_year(), r.iso_month(), r.iso_day(), r.hour(), r.minute(), r.second(), r.millisecond(), r.microsecond(), r.nanosecond()),
+                Err(e) => format!("1 {}", e.kind() as u8),
+            }
+        }
+        "syn_zone_wall_to_instant" => {
+            // t before after  h mi s ms us ns  dis   (local date fixed to 2000-06-15)
+            use vharness::c13::{base_date, OneTransition, SynProvider, BASE_DAY};
+            let zone = OneTransition { t: a[0] as i64, before: a[1] as i64, after: a[2] as i64 };
+            let provider = SynProvider { zone, base_day: BASE_DAY, base: base_date() };
+            let dt = h::iso_date_time_new_unchecked(base_date(), time6(&a[3..]));
+            let pdt = h::plain_date_time_new_unchecked(dt, temporal_rs::Calendar::default());
+            let tz = temporal_rs::TimeZone::IanaIdentifier("Syn/Zone".into());
+            let dis = match a[9] { 0 => temporal_rs::options::Disambiguation::Compatible, 1 => temporal_rs::options::Disambiguation::Earlier,
+                                   2 => temporal_rs::options::Disambiguation::Later, _ => temporal_rs::options::Disambiguation::Reject };
+            match pdt.to_zoned_date_time_with_provider(&tz, dis, &provider) {
+                Ok(z) => format!("0 {}", z.epoch_nanoseconds().as_i128()),
+                Err(e) => format!("1 {}", e.kind() as u8),
+            }
+        }
+        "syn_zone_instant_to_wall" => {
+            use vharness::c13::{base_date, OneTransition, SynProvider, BASE_DAY};
+            let zone = OneTransition { t: a[0] as i64, before: a[1] as i64, after: a[2] as i64 };
+            let provider = SynProvider { zone, base_day: BASE_DAY, base: base_date() };
+            let Ok(en) = temporal_rs::time::EpochNanoseconds::try_from(a[3]) else { return "1 2".into() };
+            let z = Instant::from(en).to_zoned_date_time_iso(temporal_rs::TimeZone::IanaIdentifier("Syn/Zone".into()));
+            match z.to_plain_datetime_with_provider(&provider) {
+                Ok(p) => format!("0 {} {} {} {} {} {} {} {} {}", p.iso_year(), p.iso_month(), p.iso_day(), p.hour(), p.minute(), p.second(), p.millisecond(), p.microsecond(), p.nanosecond()),
+                Err(e) => format!("1 {}", e.kind() as u8),
+            }
+        }
+        "syn_zone_start_of_day" | "syn_zone_hours_in_day" => {
+            // t before after e
+            use vharness::c13::{base_date, OneTransition, SynProvider, BASE_DAY};
+            let zone = OneTransition { t: a[0] as i64, before: a[1] as i64, after: a[2] as i64 };
+            let provider = SynProvider { zone, base_day: BASE_DAY, base: base_date() };
+            let Ok(en) = temporal_rs::time::EpochNanoseconds::try_from(a[3]) else { return "1 2".into() };
+            let z = Instant::from(en).to_zoned_date_time_iso(temporal_rs::TimeZone::IanaIdentifier("Syn/Zone".into()));
+            if name == "syn_zone_start_of_day" {
+                match z.start_of_day_with_provider(&provider) {
+                    Ok(s) => format!("0 {}", s.epoch_nanoseconds().as_i128()),
+                    Err(e) => format!("1 {}", e.kind() as u8),
+                }
+            } else {
+                match z.hours_in_day_with_provider(&provider) {
+                    Ok(h) => format!("0 {h}"),
+                    Err(e) => format!("1 {}", e.kind() as u8),
+                }
+            }
+        }
+        "syn_zone_zdt_add" => {
+            // t before after e days hours minutes nanoseconds
+            use vharness::c13::{base_date, OneTransition, SynProvider, BASE_DAY};
+            let zone = OneTransition { t: a[0] as i64, before: a[1] as i64, after: a[2] as i64 };
+            let provider = SynProvider { zone, base_day: BASE_DAY, base: base_date() };
+            let Ok(en) = temporal_rs::time::EpochNanoseconds::try_from(a[3]) else { return "1 2".into() };
+            let z = Instant::from(en).to_zoned_date_time_iso(temporal_rs::TimeZone::IanaIdentifier("Syn/Zone".into()));
+            use temporal_rs::primitive::FiniteF64 as F;
+            let f = |x: i128| F::try_from(x as f64).unwrap_or_default();
+            let zf = F::default();
+            let d = match temporal_rs::Duration::new(zf, zf, zf, f(a[4]), f(a[5]), f(a[6]), zf, zf, zf, f(a[7])) {
+                Ok(d) => d,
+                Err(e) => return format!("1 {}", e.kind() as u8),
+            };
+            match z.add_with_provider(&d, None, &provider) {
+                Ok(s) => format!("0 {}", s.epoch_nanoseconds().as_i128()),
+                Err(e) => format!("1 {}", e.kind() as u8),
+            }
+        }
+        "syn_zone_interpret_offset" => {
+            // t before after  h mi s ms us ns  dis offset_option kind(0 none,1 offset,2 Z) offset_ns   -- through the string route
+            use vharness::c13::{OneTransition, SynProvider, base_date, BASE_DAY};
+            let zone = OneTransition { t: a[0] as i64, before: a[1] as i64, after: a[2] as i64 };
+            let provider = SynProvider { zone, base_day: BASE_DAY, base: base_date() };
+            let sub = a[6] * 1_000_000 + a[7] * 1_000 + a[8];
+            let mut text = format!("2000-06-15T{:02}:{:02}:{:02}.{:09}", a[3], a[4], a[5], sub);
+            text.push_str(&offset_text(a[11], a[12], true));
+            text.push_str("[Syn/Zone]");
+            let dis = match a[9] { 0 => temporal_rs::options::Disambiguation::Compatible, 1 => temporal_rs::options::Disambiguation::Earlier,
+                                   2 => temporal_rs::options::Disambiguation::Later, _ => temporal_rs::options::Disambiguation::Reject };
+            use temporal_rs::options::OffsetDisambiguation as O;
+            let opt = match a[10] { 0 => O::Use, 1 => O::Prefer, 2 => O::Ignore, _ => O::Reject };
+            match temporal_rs::ZonedDateTime::from_str_with_provider(&text, dis, opt, &provider) {
+                Ok(z) => format!("0 {}", z.epoch_nanoseconds().as_i128()),
+                Err(e) => format!("1 {}", e.kind() as u8),
+            }
+        }
+        "syn_zone_offset_of_string_zoned" | "syn_zone_offset_of_string_relative_to" => {
+            // sign hh mm ss has_fraction fraction_digits fraction_ns is_z: the offset a string's designator is read as, observed end to end
+            use vharness::c13::{OneTransition, SynProvider, base_date, BASE_DAY};
+            let whole = a[0] * (a[1] * 3600 + a[2] * 60 + a[3]);
+            let l: i128 = (BASE_DAY as i128 * 86_400 + 12 * 3600) * 1_000_000_000;
+            let designator = if a[7] != 0 { "Z".to_string() } else {
+                format!("{}{:02}:{:02}:{:02}{}", if a[0] < 0 { '-' } else { '+' }, a[1], a[2], a[3], fraction_text(a[4], a[5], a[6]))
+            };
+            let text = format!("2000-06-15T12:00:00{designator}[Syn/Zone]");
+            if name == "syn_zone_offset_of_string_zoned" {
+                // zone at +05:00 throughout; option `use` makes the written offset observable
+                let zone = OneTransition { t: (BASE_DAY * 86_400) as i64, before: 18_000, after: 18_000 };
+                let provider = SynProvider { zone, base_day: BASE_DAY, base: base_date() };
+                match temporal_rs::ZonedDateTime::from_str_with_provider(&text, temporal_rs::options::Disambiguation::Compatible,
+                                                                         temporal_rs::options::OffsetDisambiguation::Use, &provider) {
+                    Ok(z) if a[7] != 0 => format!("0 0 {}", (z.epoch_nanoseconds().as_i128() == l) as u8),
+                    Ok(z) => format!("0 1 {} 0", l - z.epoch_nanoseconds().as_i128()),
+                    Err(e) => format!("1 {}", e.kind() as u8),
+                }
+            } else {
+                // RelativeTo requires the written offset to match the zone's: the zone is given the intended offset (whole seconds),
+                // so a written offset with a non-zero fraction is not observable this way (reported as an error)
+                let zone = OneTransition { t: (BASE_DAY * 86_400) as i64, before: whole as i64, after: whole as i64 };
+                let provider = SynProvider { zone, base_day: BASE_DAY, base: base_date() };
+                match temporal_rs::options::RelativeTo::try_from_str_with_provider(&text, &provider) {
+                    Ok(temporal_rs::options::RelativeTo::ZonedDateTime(z)) if a[7] != 0 => format!("0 0 {}", (z.epoch_nanoseconds().as_i128() == l) as u8),
+                    Ok(temporal_rs::options::RelativeTo::ZonedDateTime(z)) => format!("0 1 {} 0", l - z.epoch_nanoseconds().as_i128()),
+                    Ok(_) => "1 0".to_string(),
+                    Err(e) => format!("1 {}", e.kind() as u8),
+                }
+            }
+        }
+        "record_instant" | "record_plain_time" | "record_plain_date_time" | "record_plain_date" => {
+            // a parse record rendered as text: y m d has_time h mi s  f? fdigits fns  kind sign oh om os  f? fdigits fns
+            use core::str::FromStr;
+            let text = render_record(a);
+            match name {
+                "record_instant" => match Instant::from_str(&text) {
+                    Ok(i) => format!("0 {}", i.as_i128()),
+                    Err(e) => format!("1 {}", e.kind() as u8),
+                },
+                "record_plain_time" => match temporal_rs::PlainTime::from_str(&text) {
+                    Ok(t) => format!("0 {} {} {} {} {} {}", t.hour(), t.minute(), t.second(), t.millisecond(), t.microsecond(), t.nanosecond()),
+                    Err(e) => format!("1 {}", e.kind() as u8),
+                },
+                "record_plain_date_time" => match temporal_rs::PlainDateTime::from_str(&text) {
+                    Ok(p) => format!("0 {} {} {} {} {} {} {} {} {}", p.iso_year(), p.iso_month(), p.iso_day(), p.hour(), p.minute(), p.second(),
+                                     p.millisecond(), p.microsecond(), p.nanosecond()),
+                    Err(e) => format!("1 {}", e.kind() as u8),
+                },
+                _ => match temporal_rs::PlainDate::from_str(&text) {
+                    Ok(p) => format!("0 {} {} {}", p.iso_year(), p.iso_month(), p.iso_day()),
+                    Err(e) => format!("1 {}", e.kind() as u8),
+                },
+            }
+        }
         "negate_mode" => format!("{}", vharness::common::mode_idx(mode(a[0]).negate())),
         "unsigned_mode" => {
             use temporal_rs::options::UnsignedRoundingMode as U;
@@ -215,6 +398,56 @@ fn run(name: &str, a: &[i128]) -> String {
         }
         _ => "UNKNOWN_HOOK".to_string(),
     }
+}
+
+/// the UTC designator of a date-time string: kind 0 none, 1 `+hh:mm:ss[.fffffffff]`, 2 `Z`
+fn offset_text(kind: i128, ns: i128, with_fraction: bool) -> String {
+    match kind {
+        0 => String::new(),
+        2 => "Z".to_string(),
+        _ => {
+            let (sign, m) = if ns < 0 { ('-', -ns) } else { ('+', ns) };
+            let (secs, frac) = (m / 1_000_000_000, m % 1_000_000_000);
+            let mut t = format!("{sign}{:02}:{:02}:{:02}", secs / 3600, secs / 60 % 60, secs % 60);
+            if with_fraction {
+                t.push_str(&format!(".{frac:09}"));
+            }
+            t
+        }
+    }
+}
+
+fn fraction_text(has: i128, digits: i128, ns: i128) -> String {
+    if has == 0 {
+        return String::new();
+    }
+    let nine = format!("{ns:09}");
+    let mut t = String::from(".");
+    t.push_str(&nine[..(digits.min(9) as usize)]);
+    for _ in 9..digits {
+        t.push('1');
+    }
+    t
+}
+
+/// the text of a parse record (see /verif/lib/specs/c12.py record_inputs)
+fn render_record(a: &[i128]) -> String {
+    let y = a[0];
+    let mut t = if (0..=9999).contains(&y) { format!("{y:04}") } else { format!("{}{:06}", if y < 0 { '-' } else { '+' }, y.abs()) };
+    t.push_str(&format!("-{:02}-{:02}", a[1], a[2]));
+    if a[3] != 0 {
+        t.push_str(&format!("T{:02}:{:02}:{:02}", a[4], a[5], a[6]));
+        t.push_str(&fraction_text(a[7], a[8], a[9]));
+        match a[10] {
+            0 => {}
+            2 => t.push('Z'),
+            _ => {
+                t.push_str(&format!("{}{:02}:{:02}:{:02}", if a[11] < 0 { '-' } else { '+' }, a[12], a[13], a[14]));
+                t.push_str(&fraction_text(a[15], a[16], a[17]));
+            }
+        }
+    }
+    t
 }
 
 fn main() {
